@@ -5,6 +5,8 @@ import (
 	"fmt"
 	"os"
 	"path/filepath"
+	"sort"
+	"strings"
 
 	"github.com/dadrus/heimdall/internal/config"
 	"github.com/dadrus/heimdall/internal/rules/mechanisms"
@@ -238,6 +240,12 @@ func (r *built) exec(in *Input, cch *recCache, script []uint8) (Obs, []uint8, in
 	if len(produced) != 0 {
 		ob, _ := json.Marshal(produced)
 		o.Outputs = string(ob)
+
+		// what later steps see is the value with its type (a template prints 4200000 and 4.2e+06 for the same number as
+		// integer and as float, an expression divides them differently)
+		if ts := numberTypes("", produced); ts != "" {
+			o.Outputs += " number-types:" + ts
+		}
 	}
 
 	o.Upstream = canonUpstream(c)
@@ -321,4 +329,35 @@ func expandKeyStore(m map[string]any) map[string]any {
 	}
 
 	return rec(normMap(m)).(map[string]any) //nolint:forcetypeassert
+}
+
+// numberTypes lists the Go types of the numbers inside a decoded value, in a fixed order.
+func numberTypes(path string, v any) string {
+	switch t := v.(type) {
+	case map[string]any:
+		keys := make([]string, 0, len(t))
+		for k := range t {
+			keys = append(keys, k)
+		}
+
+		sort.Strings(keys)
+
+		var sb strings.Builder
+		for _, k := range keys {
+			sb.WriteString(numberTypes(path+"."+k, t[k]))
+		}
+
+		return sb.String()
+	case []any:
+		var sb strings.Builder
+		for i, e := range t {
+			sb.WriteString(numberTypes(fmt.Sprintf("%s[%d]", path, i), e))
+		}
+
+		return sb.String()
+	case string, bool, nil:
+		return ""
+	default:
+		return fmt.Sprintf("%s=%T;", path, v)
+	}
 }
